@@ -9,13 +9,6 @@ From Verif Require Import lib.Quote model.ExSyntax model.ExLexer model.ExParser 
 Import ListNotations.
 Open Scope N_scope.
 
-(* func wrapExpression(tokenType, token) *)
-Definition wrap_expression (ty : toktype) (tok : ExSyntax.text) : ExSyntax.text :=
-  match ty with
-  | IDENTIFIER => r_at :: tok
-  | _ => r_at :: r_lparen :: tok ++ [r_rparen]
-  end.
-
 Inductive rres :=
 | ROk (s : ExSyntax.text)   (* refactored source *)
 | RErr                      (* excellent.Parse returned an error *)
@@ -27,6 +20,21 @@ Variable isln : N -> bool.
 Variable lower : N -> N.
 Variable printable : N -> bool.
 Variable tx : expr -> option expr.
+
+(* func isIdentifier(token): NewXScanner("@"+token, nil).Scan() returns IDENTIFIER with exactly that text, i.e. the
+   text can be written back as @identifier and is read back in full *)
+Definition is_identifier (tok : ExSyntax.text) : bool :=
+  match scan isln lower None true (new_input (r_at :: tok)) with
+  | Ok (IDENTIFIER, t, _) => text_eqb t tok
+  | _ => false
+  end.
+
+(* func wrapExpression(tokenType, token) *)
+Definition wrap_expression (ty : toktype) (tok : ExSyntax.text) : ExSyntax.text :=
+  match ty with
+  | IDENTIFIER => if is_identifier tok then r_at :: tok else r_at :: r_lparen :: tok ++ [r_rparen]
+  | _ => r_at :: r_lparen :: tok ++ [r_rparen]
+  end.
 
 (* func expression(expression string, tx) (string, error) *)
 Definition refactor_expression (src : ExSyntax.text) : rres :=
@@ -69,10 +77,11 @@ Definition refactor_template (tops : option (list ExSyntax.text)) (s : ExSyntax.
 
 End Refactor.
 
-(* ContextRefRename(from, to) (context_rename.go, as repaired in /repo 881a989): every ContextReference whose Name is
-   EqualFold to `from` gets Name = to — except the references inside the body of an anonymous function that has a
-   parameter EqualFold to `from` (they refer to the parameter, not to the context).
-   [is_from n] = strings.EqualFold(n, from) (a Go library function: enters as an argument). *)
+(* ContextRefRename(from, to) (context_rename.go): every ContextReference whose Name is the same name as `from` gets
+   Name = to — except the references inside the body of an anonymous function that has a parameter of that name
+   (they refer to the parameter, not to the context; /repo 881a989).  [is_from n] = sameName(n, from); names are the
+   same when their lower case is the same, as in evaluation (hunt finding C11/2; section Avoid gives the concrete
+   is_from).  This section: the renaming proper, for any is_from. *)
 Section Rename.
 Variable is_from : ExSyntax.text -> bool.
 Variable to : ExSyntax.text.
@@ -134,8 +143,125 @@ Fixpoint brefs (e : expr) : list ExSyntax.text :=
   | _ => []
   end.
 
+End Rename.
+
+(* Capture in the other direction (hunt finding C11/1): a renamed reference inside an anonymous function that has a
+   parameter named like a name the replacement refers to would now refer to that parameter.  ContextRefRename gives
+   such parameters (in every function that has one, and the references to them) a name nothing else uses, then
+   renames. *)
+Section Avoid.
+Variable lower : N -> N.
+Variable from : ExSyntax.text.
+Variable to : ExSyntax.text.
+
+Definition lname (n : ExSyntax.text) : ExSyntax.text := map lower n.      (* strings.ToLower *)
+Definition same_name (a b : ExSyntax.text) : bool := text_eqb (lname a) (lname b).
+Definition is_from (n : ExSyntax.text) : bool := same_name n from.
+
+(* toNames: the lower-cased names the replacement refers to, in order of first occurrence (webhook for webhook.json);
+   the replacement itself when it is not an expression *)
+Definition add_name (acc : list ExSyntax.text) (x : ExSyntax.text) : list ExSyntax.text :=
+  if existsb (text_eqb x) acc then acc else acc ++ [x].
+
+Definition target_names : list ExSyntax.text :=
+  match lex to with
+  | LOk ts =>
+      match parse_tokens ts with
+      | POk e => fold_left add_name (map lname (refs e)) []
+      | _ => [lname to]
+      end
+  | _ => [lname to]
+  end.
+
+(* used: the lower-cased parameter and reference names of the expression *)
+Fixpoint used_names (e : expr) : list ExSyntax.text :=
+  match e with
+  | ECtxRef n => [lname n]
+  | EDot c _ => used_names c
+  | EIndex c l => used_names c ++ used_names l
+  | ECall f ps => used_names f ++ flat_map used_names ps
+  | EAnon a b => map lname a ++ used_names b
+  | EBin _ a b => used_names a ++ used_names b
+  | ENeg a => used_names a
+  | EParen a => used_names a
+  | _ => []
+  end.
+
+(* some reference in e will be renamed; bnd = an enclosing function has a parameter named like `from` *)
+Fixpoint has_renamed (bnd : bool) (e : expr) : bool :=
+  match e with
+  | ECtxRef n => negb bnd && is_from n
+  | EDot c _ => has_renamed bnd c
+  | EIndex c l => has_renamed bnd c || has_renamed bnd l
+  | ECall f ps => has_renamed bnd f || existsb (has_renamed bnd) ps
+  | EAnon a b => has_renamed (bnd || existsb is_from a) b
+  | EBin _ a b => has_renamed bnd a || has_renamed bnd b
+  | ENeg a => has_renamed bnd a
+  | EParen a => has_renamed bnd a
+  | _ => false
+  end.
+
+(* some function with a parameter named `name` has a reference in its body that will be renamed *)
+Fixpoint captures (name : ExSyntax.text) (bnd : bool) (e : expr) : bool :=
+  match e with
+  | EDot c _ => captures name bnd c
+  | EIndex c l => captures name bnd c || captures name bnd l
+  | ECall f ps => captures name bnd f || existsb (captures name bnd) ps
+  | EAnon a b =>
+      let bnd' := bnd || existsb is_from a in
+      (existsb (same_name name) a && has_renamed bnd' b) || captures name bnd' b
+  | EBin _ a b => captures name bnd a || captures name bnd b
+  | ENeg a => captures name bnd a
+  | EParen a => captures name bnd a
+  | _ => false
+  end.
+
+(* every function with a parameter named `name`: those parameters, and the references named `name` in its body,
+   are called `fresh`; inb = inside such a function *)
+Fixpoint alpha (name fresh : ExSyntax.text) (inb : bool) (e : expr) : expr :=
+  match e with
+  | ECtxRef n => if inb && same_name n name then ECtxRef fresh else ECtxRef n
+  | EDot c l => EDot (alpha name fresh inb c) l
+  | EIndex c l => EIndex (alpha name fresh inb c) (alpha name fresh inb l)
+  | ECall f ps => ECall (alpha name fresh inb f) (map (alpha name fresh inb) ps)
+  | EAnon a b =>
+      if existsb (fun x => same_name x name) a
+      then EAnon (map (fun x => if same_name x name then fresh else x) a) (alpha name fresh true b)
+      else EAnon a (alpha name fresh inb b)
+  | EBin o a b => EBin o (alpha name fresh inb a) (alpha name fresh inb b)
+  | ENeg a => ENeg (alpha name fresh inb a)
+  | EParen a => EParen (alpha name fresh inb a)
+  | EText v => EText v
+  | ENum l => ENum l
+  | EBool b => EBool b
+  | ENull => ENull
+  end.
+
+(* fresh := name + "_"; for used[fresh] || contains(toNames, fresh) { fresh += "_" } — the loop ends within
+   length(taken)+1 rounds *)
+Fixpoint pick_fresh (fuel : nat) (cand : ExSyntax.text) (taken : list ExSyntax.text) : ExSyntax.text :=
+  match fuel with
+  | O => cand
+  | S f => if existsb (text_eqb cand) taken then pick_fresh f (cand ++ [95]) taken else cand
+  end.
+
+Fixpoint avoid (names used : list ExSyntax.text) (e : expr) : expr :=
+  match names with
+  | [] => e
+  | name :: rest =>
+      if captures name false e then
+        let taken := used ++ target_names in
+        let fresh := pick_fresh (S (length taken)) (name ++ [95]) taken in
+        avoid rest (fresh :: used) (alpha name fresh false e)
+      else avoid rest used e
+  end.
+
+(* the tree the transformation leaves *)
+Definition rename_full (e : expr) : expr :=
+  rename is_from to (avoid target_names (used_names e) e).
+
 (* the transformation function: changed iff some free reference matched *)
 Definition rename_tx (e : expr) : option expr :=
-  if existsb is_from (frefs e) then Some (rename e) else None.
+  if existsb is_from (frefs is_from e) then Some (rename_full e) else None.
 
-End Rename.
+End Avoid.
